@@ -27,9 +27,9 @@ Qed.
 Lemma key_complete : forall f, In f context_reads -> f <> "options" -> In f kind_key_fields.
 Proof.
   intros f Hf Hne. assert (T := key_table). unfold key_table_ok in T.
-  repeat (apply andb_prop in T; destruct T as [T ?]).
-  match goal with H : forallb (fun f => smem f context_fields) context_reads = true |- _ =>
-    rewrite forallb_forall in H; assert (Hc := smem_In _ _ (H f Hf)) end.
+  apply andb_prop in T. destruct T as [T _]. apply andb_prop in T. destruct T as [T _].
+  apply andb_prop in T. destruct T as [T TB].
+  rewrite forallb_forall in TB. assert (Hc := smem_In _ _ (TB f Hf)).
   rewrite forallb_forall in T. specialize (T f Hc). apply orb_true_iff in T. destruct T as [T|T].
   - apply smem_In; auto.
   - apply smem_In in T. simpl in T. destruct T as [T|[]]. congruence.
